@@ -117,6 +117,7 @@ def call_tree(ctx, pid, ints=None, floor_note=True):
     cached_mutables(ctx, rels)
     from . import shared_state
     shared_state.check(ctx, rels)
+    shared_state.check_aliases(ctx, rels)
     n_mod = 0
     for rel in rels:
         try:
@@ -148,6 +149,11 @@ def call_tree(ctx, pid, ints=None, floor_note=True):
                 cache[key] = (status, details)
             status, details = cache[key]
             where = "%s:%d" % (rel, f.node.lineno)
+            if status != "same":
+                ref_fn = next((n for n in tree.body if isinstance(n, ast.FunctionDef) and n.name == rn), None)
+                for nm, node in shared_state.hoisted_initialisations(f.node, ref_fn):
+                    ctx.bad("fn:%s:hoisted-init:%s" % (q.split(".", 1)[-1], nm), "%s:%d" % (rel, node.lineno),
+                            "%s creates `%s` once, before its loops, and fills it inside them; the reviewed function creates a new one in every iteration: the elements of one iteration are still there in the next" % (q, nm))
             if status == "same":
                 ctx.ok("fn:%s" % q, nontrivial=True)
             elif status == "differs":
